@@ -1,7 +1,7 @@
 (* C01 — Escrow is fully backed and the marketplace never creates or destroys coins.
    Statements only; proofs are in Proofs/Money.v and Proofs/Supply.v. *)
 From Hub Require Import Base.Prelude Base.Arith Model.Types Model.Keeper Model.Handlers Model.Hooks Model.Step.
-From Hub Require Import Proofs.Tactics Proofs.Frames Proofs.Money Proofs.Supply.
+From Hub Require Import Proofs.Tactics Proofs.Frames Proofs.Money Proofs.Supply Proofs.KeysInv Proofs.Flow.
 From Hub Require Import Gen.Wiring Proofs.WiringThm.
 
 (* After every operation of every history (every block, every transaction valid or
@@ -50,6 +50,24 @@ Proof.
   - intros a c0 H. simpl in H. apply elem_of_list_singleton in H. injection H as -> _. discriminate.
 Qed.
 
+(* Where coins can ARRIVE.  Across one whole operation -- any transaction, either block hook with all its loop iterations,
+   governance -- an account's balance in any denomination grows only if the account is the escrow account, the fee
+   collector, the community pool (distribution module account), the provider of a stored plan, the node of a stored
+   payout or session, or the subscriber of a stored subscription or payout; for a swap (C14) also the named receiver.
+   Together with C01_no_mint_no_burn (supply unchanged by every non-swap operation) and C01_balances_add_up_to_supply:
+   whatever leaves a balance or the escrow arrives, in the same step, in one of these accounts. *)
+Theorem C01_coins_arrive_only_at_parties : forall s o s' x,
+  kinv s -> step s o = OOk s' -> (exists d, bal s x d < bal s' x d) ->
+  x = c_deposit (cfg s) \/ x = c_feecoll (cfg s) \/ x = c_distr (cfg s) \/
+  (exists id p, get_plan s id = Some p /\ pl_prov p = x) \/
+  (exists id po, payouts s !! id = Some po /\ (po_node po = x \/ po_addr po = x)) \/
+  (exists id y, sessions s !! id = Some y /\ ss_node y = x) \/
+  (exists id sb, subs s !! id = Some sb /\ sb_addr sb = x) \/
+  (exists from hash receiver amount, o = OTx (MSwap from hash receiver amount) /\ x = ta_bytes receiver).
+Proof.
+  intros s o s' x Hi Hs G. destruct (flow_step s o s' x Hi Hs G) as [R|R]; unfold recipient in *; tauto.
+Qed.
+
 Section wiring.
 Local Open Scope string_scope.
 (* app wiring (regenerated from app/module.go on every run): the escrow account can neither mint nor burn,
@@ -68,3 +86,4 @@ Print Assumptions C01_genesis.
 Print Assumptions C01_no_mint_no_burn.
 Print Assumptions C01_escrow_account_cannot_mint_or_burn.
 Print Assumptions C01_payees_are_module_accounts.
+Print Assumptions C01_coins_arrive_only_at_parties.
